@@ -1725,11 +1725,83 @@ class Engine(ExprEval, NumpyModel, NumpyFuncs):
         outs.append((st, res))
         return outs
 
+    # ------------------------------------------------------------------ renamed locals
+    @staticmethod
+    def assigned_locals(fi):
+        """names bound in the function body (assignments, loop targets, with-as), in source order, parameters excluded"""
+        params = {p for p, _ in fi.params}
+        seen, out = set(), []
+
+        def add(t):
+            if isinstance(t, ast.Name):
+                if t.id not in seen and t.id not in params:
+                    seen.add(t.id)
+                    out.append(t.id)
+            elif isinstance(t, (ast.Tuple, ast.List)):
+                for e in t.elts:
+                    add(e)
+            elif isinstance(t, ast.Starred):
+                add(t.value)
+
+        nodes = sorted((n for n in ast.walk(fi.node) if isinstance(n, (ast.Assign, ast.AugAssign, ast.AnnAssign, ast.For, ast.With))),
+                       key=lambda n: (n.lineno, n.col_offset))
+        for n in nodes:
+            if isinstance(n, ast.Assign):
+                for t in n.targets:
+                    add(t)
+            elif isinstance(n, (ast.AugAssign, ast.AnnAssign)):
+                add(n.target)
+            elif isinstance(n, ast.For):
+                add(n.target)
+            elif isinstance(n, ast.With):
+                for it in n.items:
+                    if it.optional_vars is not None:
+                        add(it.optional_vars)
+        return out
+
+    def rename_for_locals(self, c: Contract, fi):
+        """A contract names locals of the function in invariants / ghost code / anchors. When such a name no longer exists but the function binds
+        the same NUMBER of locals in the same order as on the unchanged tree (baseline_locals.json), the differing positions are taken as a
+        renaming and the contract text is rewritten accordingly. The result is marked: obligations of a re-anchored contract that fail are
+        reported as undecided, never as a violation."""
+        import copy as _copy, json as _json, os as _os, re as _re
+        path = _os.path.join(_os.path.dirname(_os.path.dirname(_os.path.abspath(__file__))), "baseline_locals.json")
+        if not _os.path.exists(path):
+            return c, None
+        with open(path) as fh:
+            base = _json.load(fh).get(c.target)
+        if not base:
+            return c, None
+        now = self.assigned_locals(fi)
+        if now == base or len(now) != len(base):
+            return c, None
+        mapping = {b: n for b, n in zip(base, now) if b != n}
+        if not mapping or any(n in base for n in mapping.values()) or len(set(mapping.values())) != len(mapping):
+            return c, None
+        texts = [v for d in c.invariants.values() for v in d.values()] + [x for a, code in c.ghost for x in (a, code)] + list(c.decreases.values())
+        used = {m for t in texts for m in _re.findall(r"[A-Za-z_][A-Za-z_0-9]*", t)}
+        if not (used & set(mapping)):
+            return c, None
+
+        def ren(t):
+            for b, n in mapping.items():
+                t = _re.sub(rf"(?<![A-Za-z_0-9.]){_re.escape(b)}(?![A-Za-z_0-9])", n, t)
+            return t
+
+        c2 = _copy.deepcopy(c)
+        c2.invariants = {k: {kk: ren(v) for kk, v in d.items()} for k, d in c.invariants.items()}
+        c2.ghost = [(ren(a), ren(code)) for a, code in c.ghost]
+        c2.decreases = {k: ren(v) for k, v in c.decreases.items()}
+        c2.loop_vars = {k: {ren(kk): v for kk, v in d.items()} for k, d in c.loop_vars.items()}
+        c2.call_ghosts = {ren(k): {f: {g: ren(e) for g, e in gm.items()} for f, gm in v.items()} for k, v in c.call_ghosts.items()}
+        return c2, mapping
+
     # ------------------------------------------------------------------ verifying one function against its contract
     def verify(self, c: Contract):
         fi = self.repo.func(c.target)
         if fi is None:
             raise Unsupported(f"unbindable contract: {c.target} not found in the repository")
+        c, self.renamed_locals = self.rename_for_locals(c, fi)
         self.cur, self.cur_fi = c, fi
         self._inv_hit, self._ghost_hit = set(), set()
         declared = [p for p in c.params if "." not in p]
